@@ -137,6 +137,17 @@ pub fn judge_blank(s: &str) -> Verdict {
 }
 
 pub fn replay(case: &Value) -> Result<Verdict, String> {
+    if case["kind"] == "bare-codepoint" {
+        let b = case["input"].as_str().ok_or("input")?.to_string();
+        // the quoted twin: quotes around the second word
+        let mut parts = b.splitn(3, ' ');
+        let (kw, word, rest) = (parts.next().unwrap_or(""), parts.next().unwrap_or(""), parts.next().unwrap_or(""));
+        let q = format!("{kw} '{word}' {rest}");
+        return Ok(match (parse_pair(&b), parse_pair(&q)) {
+            (Ok(Ok(x)), Ok(Ok(y))) if x == y => Verdict::Pass { nt: true, class: "bare argument with every code point: same as quoted" },
+            (x, y) => Verdict::Fail(format!("{b:?}: bare -> {x:?}, quoted -> {y:?}")),
+        });
+    }
     match case["kind"].as_str() {
         Some("blank") => Ok(judge_blank(case["input"].as_str().ok_or("no input")?)),
         _ => {
@@ -189,6 +200,34 @@ pub fn run(ctx: &Ctx) -> Report {
         }
     }
     total.merge(stl);
+    // every code point of the basic plane (and a stride through the others) inside a bare argument:
+    // the word is the same as when it is written between quotes (only the four blanks and ')' end a
+    // bare word - not a character that merely shares their low byte or that Unicode calls a space)
+    let cps: Vec<u32> = (1u32..0x1_1000).chain((0x1_1000u32..=0x10_FFFF).step_by(97)).collect();
+    let bare = run_shards(16, |shard| {
+        let mut st = Stats::new();
+        for (i, cp) in cps.iter().enumerate() {
+            if i % 16 != shard {
+                continue;
+            }
+            let Some(c) = char::from_u32(*cp) else { continue };
+            if matches!(c, ' ' | '\t' | '\r' | '\n' | ')' | '\'' | '"') {
+                continue;
+            }
+            let word = format!("a{c}b");
+            let kw = ["-name", "-ipath", "-pool", "-fprint", "-regex"][i % 5];
+            let (b, q) = (format!("{kw} {word} -print"), format!("{kw} '{word}' -print"));
+            let v = match (parse_pair(&b), parse_pair(&q)) {
+                (Ok(Ok(x)), Ok(Ok(y))) if x == y => Verdict::Pass { nt: !c.is_ascii(), class: "bare argument with every code point: same as quoted" },
+                (Ok(Ok(x)), Ok(Ok(y))) => Verdict::Fail(format!("{b:?} (U+{cp:04X} inside a bare word) gives {x:?}, the quoted spelling {q:?} gives {y:?}")),
+                (x, y) => Verdict::Fail(format!("{b:?} (U+{cp:04X} inside a bare word): bare -> {}, quoted -> {}", if matches!(x, Ok(Ok(_))) { "accepted".to_string() } else { format!("{x:?}") }, if matches!(y, Ok(Ok(_))) { "accepted".to_string() } else { format!("{y:?}") })),
+            };
+            st.record(&v, stable_hash(&b), true, || json!({"kind": "bare-codepoint", "code_point": cp, "input": b}));
+        }
+        st.samples.truncate(1);
+        st
+    });
+    total.merge(bare);
     // interaction triples: three leaf kinds (every kind of primary, options too) under every operator
     // skeleton, each in a layout variant derived from the tree
     let mut kinds = crate::combo::all_kinds();
